@@ -155,6 +155,17 @@ func basicKind(t types.Type) (types.BasicKind, bool) {
 	return b.Kind(), true
 }
 
+// wordBits is the width of int/uint/uintptr of the analysed build (32 when the tree is loaded with GOARCH=386).
+var wordBits = 64
+
+func setWordBits(w *core.World) {
+	wordBits = 64
+	switch w.Opts.GOARCH {
+	case "386", "arm", "mips", "mipsle", "wasm32":
+		wordBits = 32
+	}
+}
+
 func intBits(k types.BasicKind) (bits int, signed, isInt bool) {
 	switch k {
 	case types.Int8:
@@ -166,14 +177,16 @@ func intBits(k types.BasicKind) (bits int, signed, isInt bool) {
 	case types.Int64:
 		return 64, true, true
 	case types.Int:
-		return 64, true, true
+		return wordBits, true, true
 	case types.Uint8:
 		return 8, false, true
 	case types.Uint16:
 		return 16, false, true
 	case types.Uint32:
 		return 32, false, true
-	case types.Uint64, types.Uint, types.Uintptr:
+	case types.Uint, types.Uintptr:
+		return wordBits, false, true
+	case types.Uint64:
 		return 64, false, true
 	}
 	return 0, false, false
@@ -241,6 +254,7 @@ func numericValueSource(v ssa.Value) string {
 }
 
 func c12(w *core.World, r *core.Report) {
+	setWordBits(w)
 	sdVars := oneofVariants(w, "github.com/sdcio/sdc-protos/sdcpb", "isTypedValue_Value")
 	gnVars := oneofVariants(w, "github.com/openconfig/gnmi/proto/gnmi", "isTypedValue_Value")
 	r.Extra["sdcpb_typedvalue_variants"] = sdVars
@@ -427,8 +441,18 @@ func c12(w *core.World, r *core.Report) {
 				if src == "" {
 					continue
 				}
-				nLossy++
 				site := core.Site(f, "convert %s -> %s of %s", cv.X.Type(), cv.Type(), shortSrc(src))
+				if wordBits == 32 {
+					// decided for the shipped 64-bit targets; a conversion that is lossy only because int is 32 bits is reported as information
+					wordBits = 64
+					l64, _ := lossyConvert(cv.X.Type(), cv.Type())
+					wordBits = 32
+					if !l64 {
+						r.Info("LOSSY", site, w.InstrPos(cv), "portability: lossy ("+why+") only when int is 32 bits; the released binaries are 64-bit")
+						continue
+					}
+				}
+				nLossy++
 				if reason, ok := lossyExceptions[core.FuncKey(f)+"|"+cv.X.Type().String()+"->"+cv.Type().String()]; ok {
 					r.OK("LOSSY", site, w.InstrPos(cv), "frozen exception: "+reason)
 					continue
